@@ -112,6 +112,12 @@ func famDiff(f *FamCtx) {
 			f.RunTreeCase(genInterruptedDeleteCase(f.Rand, RandCfg(f.Rand)), faultRunner, multiLevel)
 			continue
 		}
+		if i%20 == 13 {
+			// one very wide node: more than 255 entries of layer 0 (the tree cannot grow), two versions
+			// of it differing in a few keys
+			f.RunTreeCase(genWideDiffCase(f.Rand), exactRunner, func(CaseStats) bool { return true })
+			continue
+		}
 		if i%10 == 7 {
 			// set-like trees: some values are the untyped nil (never persisted: JSON would not give nil
 			// back); added / removed / changed must not be told apart by looking at the values
@@ -167,6 +173,38 @@ func genNilDiffCase(r *rand.Rand, cfg Cfg) Case {
 		a, b := i%2, 1-i%2
 		ops = append(ops, fmt.Sprintf("%s %d %d", pick(r, []string{"diff", "diffc"}), a, b))
 	}
+	return Case{cfg, ops}
+}
+
+// genWideDiffCase: 250-300 keys of layer 0 (a single node, wider than a uint8 can count), cloned or
+// reloaded, a few changes, diffed in both directions through both interfaces.
+func genWideDiffCase(r *rand.Rand) Case {
+	cfg := Cfg{BF: pick(r, []uint{4, 16}), Fmt: pick(r, []string{"bin", "json"}), KK: "vk", VKind: "u64", Cache: "none"}
+	n := 250 + r.Intn(60)
+	ops := []string{"new 0"}
+	var keys []uint64
+	for i := 0; i < n; i++ {
+		k := uint64(i+1) << 8 // layer 0
+		keys = append(keys, k)
+		ops = append(ops, opIns(0, k, 1))
+	}
+	if r.Intn(2) == 0 {
+		ops = append(ops, "root 0 0", "load 0 1")
+	} else {
+		ops = append(ops, "clone 0 1")
+	}
+	for i := 0; i < 1+r.Intn(5); i++ {
+		k := pick(r, keys)
+		switch r.Intn(3) {
+		case 0:
+			ops = append(ops, opIns(1, k, 2))
+		case 1:
+			ops = append(ops, opIns(1, uint64(n+2+i)<<8, 1))
+		default:
+			ops = append(ops, opIns(1, k, 3)) // (a delete needs the current value: an update is enough here)
+		}
+	}
+	ops = append(ops, "diff 0 1", "diffc 1 0", "diffc 0 1", "diff 1 0")
 	return Case{cfg, ops}
 }
 
